@@ -10,6 +10,10 @@ import (
 	"sort"
 	"strings"
 	"sync"
+	"sync/atomic"
+	"time"
+
+	"mosn.io/mosn/pkg/types"
 
 	"mosn.io/mosn/pkg/log"
 
@@ -45,8 +49,12 @@ func (o op) coq() string {
 		return fmt.Sprintf("Response %d false", o.A)
 	case "respclose":
 		return fmt.Sprintf("Response %d true", o.A)
-	case "lreset":
+	case "lreset", "lresetrace":
 		return fmt.Sprintf("LocalReset %d", o.A)
+	case "rresetrace":
+		return fmt.Sprintf("RemoteReset %d", o.A)
+	case "respcloserace":
+		return fmt.Sprintf("Response %d true", o.A)
 	case "rreset":
 		return fmt.Sprintf("RemoteReset %d", o.A)
 	case "closer":
@@ -187,6 +195,50 @@ func (w *world) apply(o op) int {
 			w.lastCoq = []string{"NewStream DialOk true"} // no dial happened (idle connection reused / refused before)
 		}
 		return res
+	case "lresetrace", "rresetrace", "respcloserace":
+		// the stream ends in a way that makes the pool close its connection; at the instant the pool calls Close() a
+		// concurrent NewStream is fired from another goroutine and given time to finish before the connection closes
+		l := w.leases[o.A]
+		target, before := l.cli, len(w.leases)
+		done := make(chan struct{})
+		var fired int32
+		rres := resNone
+		w.host.mu.Lock()
+		w.host.closeHook = func(conn types.ClientConnection) {
+			atomic.StoreInt32(&fired, 1)
+			go func() {
+				rres = w.newStream(dialOK, true)
+				close(done)
+			}()
+			select {
+			case <-done:
+			case <-time.After(100 * time.Millisecond):
+			}
+		}
+		w.host.mu.Unlock()
+		switch o.K {
+		case "lresetrace":
+			w.localReset(l)
+		case "rresetrace":
+			w.remoteReset(l)
+		default:
+			w.respond(l, true)
+		}
+		w.host.mu.Lock()
+		w.host.closeHook = nil
+		w.host.mu.Unlock()
+		if atomic.LoadInt32(&fired) == 1 {
+			select {
+			case <-done:
+			case <-time.After(2 * time.Second):
+				w.timeouts = append(w.timeouts, "raced-newstream")
+			}
+			w.raced++
+			if rres == resLeased && len(w.leases) > before && w.leases[before].cli == target {
+				w.raceFinding = fmt.Sprintf("stream %d was leased connection %d by a NewStream running while the pool was closing that connection (%s of stream %d)", before, target, o.K, l.idx)
+			}
+		}
+		w.noModel = true
 	case "send":
 		w.send(w.leases[o.A])
 	case "resp":
@@ -251,6 +303,10 @@ func (w *world) check(fs *finderState, o op, ob obs) []finding {
 		opClass += "-" + resNames[ob.Res]
 	}
 	add := func(sig, what string) { out = append(out, finding{k + ":" + sig, what}) }
+	if w.raceFinding != "" {
+		add("dirty-connection-leased-during-close", w.raceFinding)
+		w.raceFinding = ""
+	}
 
 	liveOn := map[int]int{}
 	nlive := 0
@@ -409,6 +465,8 @@ type histResult struct {
 	timeouts []string
 	closeEvs []string // close event kinds mosn reported for the connections of this history
 	family   string
+	noModel  bool // the history contains an operation with concurrency inside it: finder only, no Coq case
+	raced    int
 }
 
 func (h *histResult) key() string {
@@ -470,6 +528,7 @@ func runHistory(kind poolKind, maxConn, maxReq uint64, depth int, full bool, pro
 		h.findings = append(h.findings, w.capacityProbe(fs)...)
 	}
 	h.timeouts = w.timeouts
+	h.noModel, h.raced = w.noModel, w.raced
 	for _, c := range w.clients {
 		c.mu.Lock()
 		if c.lastEv != "" {
@@ -543,7 +602,7 @@ func c09(args []string) int {
 	if len(os.Getenv("VH_POOL_PROBE")) > 0 {
 		return c09probe(run)
 	}
-	run.Sum.Rule = "histories of pool operations {new stream (connect ok / connection refused / dial time-out / lease without sending), send, response, response with Connection: close, local reset, remote reset, connection close with every close event kind (upstream FIN = RemoteClose, upstream RST = OnReadErrClose, mosn-side LocalClose / OnReadErrClose / OnWriteErrClose / OnWriteTimeout; idle and leased connections), go-away frame, pool Shutdown, external holder of the cluster's Requests resource +/-} against one real pool (HTTP/1 and xprotocol ping-pong) over loopback TCP, max_connections and max_requests in {0,1,2}; exhaustive part: every sequence of ENABLED operations up to the stated depth (stateless DFS), family idle-close: k in 2..4 concurrent leases answered in every order, then the idle connections closed in every order with every close kind, then k new streams (max_connections 0 and k); random part: longer histories, with a bias that lets several connections become idle at once; books read after every op; a history is non-trivial when it leases at least one stream and contains at least one op other than new/response; distinct by (pool kind, limits, op sequence). Multiplex pool (one slot): histories of {CheckAndInit with dial ok / refused (init goroutine run to completion), NewStream, response, local reset, connection close of every kind, go-away frame, Shutdown, external Requests holder}, exhaustive over the enabled ops to depth 5 (7 thorough) for max_requests in {0,1,2} plus random histories of 8-30(40) ops; every op under a 4 s watchdog (a call that never returns is a finding)."
+	run.Sum.Rule = "histories of pool operations {new stream (connect ok / connection refused / dial time-out / lease without sending), send, response, response with Connection: close, local reset, remote reset, connection close with every close event kind (upstream FIN = RemoteClose, upstream RST = OnReadErrClose, mosn-side LocalClose / OnReadErrClose / OnWriteErrClose / OnWriteTimeout; idle and leased connections), go-away frame, pool Shutdown, external holder of the cluster's Requests resource +/-} against one real pool (HTTP/1 and xprotocol ping-pong) over loopback TCP, max_connections and max_requests in {0,1,2}; exhaustive part: every sequence of ENABLED operations up to the stated depth (stateless DFS), family close-race (finder only, no Coq case): k leases, some answered, then local reset / remote reset / Connection: close of a live stream with a concurrent NewStream fired at the instant the pool calls Close() on the connection; family idle-close: k in 2..4 concurrent leases answered in every order, then the idle connections closed in every order with every close kind, then k new streams (max_connections 0 and k); random part: longer histories, with a bias that lets several connections become idle at once; books read after every op; a history is non-trivial when it leases at least one stream and contains at least one op other than new/response; distinct by (pool kind, limits, op sequence). Multiplex pool (one slot): histories of {CheckAndInit with dial ok / refused (init goroutine run to completion), NewStream, response, local reset, connection close of every kind, go-away frame, Shutdown, external Requests holder}, exhaustive over the enabled ops to depth 5 (7 thorough) for max_requests in {0,1,2} plus random histories of 8-30(40) ops; every op under a 4 s watchdog (a call that never returns is a finding)."
 
 	var cfgs []poolCfg
 	for _, k := range []poolKind{kHTTP1, kPingPong} {
@@ -629,6 +688,42 @@ func c09(args []string) int {
 							h.family = "idle-close"
 							collect(h)
 						})
+					}
+				}
+			}
+		}
+	}
+	// family "close-race" (finder only): k leases, some answered (idle connections), then a stream ends so that the pool
+	// closes its connection (local reset / time-out, remote reset, "Connection: close") while a concurrent NewStream is
+	// fired at the instant the pool calls Close(); then more streams
+	for _, kind := range []poolKind{kHTTP1, kPingPong} {
+		raceOps := []string{"lresetrace", "rresetrace"}
+		if kind == kHTTP1 {
+			raceOps = append(raceOps, "respcloserace")
+		}
+		for _, mc := range []uint64{0, 1, 2, 3} {
+			for k := 1; k <= 3; k++ {
+				if mc != 0 && uint64(k) > mc {
+					continue
+				}
+				for idleN := 0; idleN < k; idleN++ {
+					for _, ro := range raceOps {
+						for rep := 0; rep < run.N(1, 4); rep++ {
+							var ops []op
+							for i := 0; i < k; i++ {
+								ops = append(ops, op{K: "new"})
+							}
+							for i := 0; i < idleN; i++ {
+								ops = append(ops, op{"resp", i})
+							}
+							ops = append(ops, op{ro, k - 1}, op{K: "new"}, op{K: "new"})
+							kind, mc, ops := kind, mc, ops
+							jobs = append(jobs, func() {
+								h := runOps(kind, mc, 0, ops, true)
+								h.family = "close-race"
+								collect(h)
+							})
+						}
 					}
 				}
 			}
@@ -724,6 +819,11 @@ func c09(args []string) int {
 		}
 		for _, f := range h.findings {
 			run.Fail(f.sig, f.what, h.descr())
+		}
+		run.Sum.Distribution["concurrent-newstream-fired-at-close"] += h.raced
+		if h.noModel {
+			run.Sum.Distribution["finder-only-histories"]++
+			continue
 		}
 		sh.Add(h.coq(), h.descr())
 		if sh.Len() >= 400 {
